@@ -200,6 +200,12 @@ def cyl_components(mask, periodic_z):
     return comps
 
 
+def _zext(comp):
+    """extent (in cells) of the unwrapped component along z; > nz means the 3x padded image cuts it"""
+    zs = [c[1] for c in comp["lifted"]]
+    return max(zs) - min(zs) + 1
+
+
 def oracle_cyl(grid, mask, em, cands, kept):
     """C02 on cylindrical grids from the property text.  Returns a list of (failure class, description)."""
     out = []
@@ -217,7 +223,7 @@ def oracle_cyl(grid, mask, em, cands, kept):
     if len(cands) != len(comps):
         # a component that winds around the periodic z axis triggers the spanning fallback (analysis without
         # periodicity): its pieces are then reported separately -> same class as the volume deviation (F29 b)
-        cls = "winding volume" if per and any(c["lifted"] is None for c in comps) else "count"
+        cls = "winding volume" if per and any(c["lifted"] is None or _zext(c) > nz for c in comps) else "count"
         out.append((cls, f"{len(cands)} candidate droplet(s) for {len(comps)} component(s) touching the axis"))
         return out
     unused = list(range(len(cands)))
@@ -225,7 +231,7 @@ def oracle_cyl(grid, mask, em, cands, kept):
         vol = sum(vol_cell(c[0]) for c in comp["cells"])
         match_v = [k for k in unused if abs(cands[k][1] - vol) <= 1e-9 * vol]
         if not match_v:
-            cls = "volume" if comp["lifted"] is not None else "winding volume"
+            cls = "volume" if (comp["lifted"] is not None and not (per and _zext(comp) > nz)) else "winding volume"
             out.append((cls, f"no droplet with the total cell volume {vol} of the component {sorted(comp['cells'])[:4]}..."))
             continue
         if comp["lifted"] is None:  # winding: position unspecified
